@@ -270,6 +270,11 @@ func (w *world) resolver(ctx context.Context, released func()) (*val, func(), er
 	case 3: // unique error, with or without a release function
 		core.YieldN("refcountx.resolver", k)
 		rc.err = fmt.Errorf("resolve-error-%d", rc.n)
+		if c.S.PlanP(100) && ctx.Err() == nil {
+			// an ordinary resolver failure whose error value is the context.Canceled sentinel
+			c.S.Count("probe:canceled-sentinel-result")
+			rc.err = context.Canceled
+		}
 		w.byErr[rc.err] = rc
 		if c.S.PlanP(500) {
 			rc.hasRel = true
